@@ -108,8 +108,34 @@ fn main() {
     }
 }
 
+/// If one execution makes no progress for `secs` seconds the code under test hangs without ever returning to the
+/// scheduler (a spin in framework code that polls no hook): write what was running and leave with exit code 3.
+fn start_hang_watchdog(out: Option<String>, prop: String, secs: u64) {
+    std::thread::spawn(move || {
+        let mut last = explore::HEARTBEAT.load(std::sync::atomic::Ordering::SeqCst);
+        let mut since = std::time::Instant::now();
+        loop {
+            std::thread::sleep(std::time::Duration::from_millis(500));
+            let now = explore::HEARTBEAT.load(std::sync::atomic::Ordering::SeqCst);
+            if now != last {
+                last = now;
+                since = std::time::Instant::now();
+            } else if since.elapsed().as_secs() >= secs && now > 0 {
+                let cur = explore::CURRENT.lock().ok().and_then(|c| c.clone());
+                if let (Some(o), Some((scn, sched))) = (&out, cur) {
+                    let body = format!("{{\"hang\":true,\"prop\":\"{prop}\",\"scenario\":{scn},\"schedule\":{:?}}}", sched);
+                    let _ = std::fs::write(format!("{o}.hang"), body);
+                }
+                eprintln!("HANG: one execution did not finish within {secs} s");
+                std::process::exit(3);
+            }
+        }
+    });
+}
+
 fn cmd_explore(args: &[String]) {
     let prop = arg(args, "--prop").expect("--prop");
+    start_hang_watchdog(arg(args, "--out"), prop.clone(), 30);
     let thorough = arg(args, "--tier").as_deref() == Some("thorough");
     let shard: usize = arg(args, "--shard").map(|s| s.parse().unwrap()).unwrap_or(0);
     let nshards: usize = arg(args, "--nshards").map(|s| s.parse().unwrap()).unwrap_or(1);
@@ -197,7 +223,10 @@ fn cmd_replay(args: &[String]) {
     for (i, e) in ct.iter().enumerate() {
         println!("{i:>4} {}", render(e));
     }
-    let viol = (p.monitor)(&scn, &ct);
+    let mut viol = (p.monitor)(&scn, &ct);
+    if ct.iter().any(|e| matches!(e.k, EvK::Livelock { .. })) {
+        viol.push(explore::Violation { clause: "no livelock".into(), detail: "hook code polled without the runtime ever becoming idle".into() });
+    }
     for x in &viol {
         println!("VIOLATED {}: {}", x.clause, x.detail);
     }
